@@ -4,6 +4,20 @@ claimed / not_applicable partition is always consistent)."""
 import json
 
 CLAIMS = {
+ 'C04': dict(
+   text='Static decision of the ordering: Comparable.__lt__ and __eq__ are evaluated abstractly from the current source '
+        'for every ordered pair of the 12 supported type classes with wrapped and unwrapped right operand (576 cells) and '
+        'compared with the stated preorder; irreflexivity, asymmetry, totality between classes and transitivity over all '
+        '1728 class triples are checked on the derived table; __le__/__gt__/__ge__ are verified as boolean functions of '
+        '< and ==; _Keyed compares keys only; every ordering comparison / sort key / merge key in sort, mergesort, '
+        'issorted, the selectors, the merge joins and merge set operations has Comparable provenance (typestate). '
+        'The table covers all pairs and triples of type classes, which example pairs cannot.',
+   ref='DESIGN.md §4 C04',
+   note='within one comparable family the native < of Python is trusted to be a strict total order consistent with == '
+        '(non-NaN); cross-family TypeError behaviour and the subclass facts are a frozen table listed in the evidence; '
+        'nested sequences are covered by the element-wise recursion argument (elements are wrapped by __init__)',
+   technique='abstract evaluation of the comparison ladder over a finite type-class domain (exhaustive table) + '
+             'Boolean truth tables for derived operators + Comparable-provenance typestate at ordering sites'),
  'C01': dict(
    text='Static interference-freedom argument over all 117 view classes: every __iter__ creates a fresh iterator, no '
         'constructor stores a one-shot resource, and the instance attributes written by iterator-reachable code '
